@@ -10,11 +10,14 @@
 //
 //	I(c):  for every slot k and position q:  slots[k].Id == k  and  llhas(state, k, q) <==> 0 <= q < len(slots[k].Inputs)
 //
+// Input equality is reflect.DeepEqual, as in the code (pure function of the two values).
 // errors.New / fmt.Errorf "never nil" are declared in the ollamarunner contract file.
 package llamarunner
 
 //@ spec func llhas(ver int, seq int, pos int) bool
 
+//@ extern func reflect.DeepEqual
+//@   pure reads none
 
 // ---- llama.cpp KV cache through package llama (trusted; llama.h: p0 < 0 means 0, p1 < 0 means "to the end") ----
 
@@ -45,7 +48,10 @@ package llamarunner
 //@ func countCommonPrefix
 //@   modifies nothing
 //@   ensures 0 <= result && result <= len(a) && result <= len(b)
+//@   ensures forall k int :: 0 <= k && k < result ==> reflect.DeepEqual(a[k], b[k])
+//@   ensures result == len(a) || result == len(b) || !reflect.DeepEqual(a[result], b[result])
 //@   loop 1 invariant count == rangeindex + 1 && count <= len(a) && count <= len(b)
+//@   loop 1 invariant forall k int :: 0 <= k && k <= rangeindex ==> reflect.DeepEqual(a[k], b[k])
 
 // ---- ShiftDiscard ----
 
@@ -65,10 +71,14 @@ package llamarunner
 //@   ensures result.2 == nil ==> exists j int :: 0 <= j && j < len(c.slots) && result.0 == &c.slots[j]
 //@   ensures result.2 == nil ==> !result.0.InUse
 //@   ensures result.2 == nil ==> 0 <= result.1 && result.1 <= len(result.0.Inputs) && result.1 <= len(prompt)
+//@   ensures result.2 == nil ==> forall k int :: 0 <= k && k < result.1 ==> reflect.DeepEqual(result.0.Inputs[k], prompt[k])
+//@   ensures result.2 == nil ==> result.1 == len(result.0.Inputs) || result.1 == len(prompt) || !reflect.DeepEqual(result.0.Inputs[result.1], prompt[result.1])
 //@   ensures result.2 != nil ==> result.0 == nil && forall k int :: 0 <= k && k < len(c.slots) ==> c.slots[k].InUse
 //@   loop 1 invariant longestSlot == nil ==> longest == -1 && forall k int :: 0 <= k && k <= rangeindex ==> c.slots[k].InUse
 //@   loop 1 invariant longestSlot != nil ==> exists j int :: 0 <= j && j <= rangeindex && longestSlot == &c.slots[j]
 //@   loop 1 invariant longestSlot != nil ==> !longestSlot.InUse && 0 <= longest && longest <= len(longestSlot.Inputs) && longest <= len(prompt)
+//@   loop 1 invariant longestSlot != nil ==> forall k int :: 0 <= k && k < longest ==> reflect.DeepEqual(longestSlot.Inputs[k], prompt[k])
+//@   loop 1 invariant longestSlot != nil ==> longest == len(longestSlot.Inputs) || longest == len(prompt) || !reflect.DeepEqual(longestSlot.Inputs[longest], prompt[longest])
 
 // ---- findBestCacheSlot ----
 // Fork: the evicted slot's sequence is emptied (KvCacheSeqRm(dst, 0, -1)) and then receives
@@ -85,6 +95,8 @@ package llamarunner
 //@   ensures result.2 == nil ==> exists j int :: 0 <= j && j < len(c.slots) && result.0 == &c.slots[j]
 //@   ensures result.2 == nil ==> !result.0.InUse
 //@   ensures result.2 == nil ==> 0 <= result.1 && result.1 <= len(result.0.Inputs) && result.1 <= len(prompt)
+//@   ensures result.2 == nil ==> forall k int :: 0 <= k && k < result.1 ==> reflect.DeepEqual(result.0.Inputs[k], prompt[k])
+//@   ensures result.2 == nil ==> result.1 == len(result.0.Inputs) || result.1 == len(prompt) || !reflect.DeepEqual(result.0.Inputs[result.1], prompt[result.1])
 //@   ensures result.2 != nil ==> result.0 == nil
 //@   ensures forall k int :: 0 <= k && k < len(c.slots) ==> c.slots[k].Id == old(c.slots[k].Id) && c.slots[k].InUse == old(c.slots[k].InUse) && c.slots[k].lastUsed == old(c.slots[k].lastUsed)
 //@   ensures forall k int :: 0 <= k && k < len(c.slots) && (result.2 != nil || result.0 != &c.slots[k]) ==> c.slots[k].Inputs == old(c.slots[k].Inputs)
@@ -99,6 +111,9 @@ package llamarunner
 //@   loop 1 invariant -1 <= longest && (rangeindex >= 0 ==> longestSlot != nil) && (longestSlot == nil ==> longest == -1)
 //@   loop 1 invariant longestSlot != nil ==> exists j int :: 0 <= j && j <= rangeindex && longestSlot == &c.slots[j]
 //@   loop 1 invariant longestSlot != nil ==> 0 <= longest && longest <= len(longestSlot.Inputs) && longest <= len(prompt)
+//@   loop 1 invariant longestSlot != nil ==> forall k int :: 0 <= k && k < longest ==> reflect.DeepEqual(longestSlot.Inputs[k], prompt[k])
+//@   loop 1 invariant longestSlot != nil ==> longest == len(longestSlot.Inputs) || longest == len(prompt) || !reflect.DeepEqual(longestSlot.Inputs[longest], prompt[longest])
+//@   loop 1 invariant longest <= 0 ==> forall k int :: 0 <= k && k <= rangeindex ==> len(c.slots[k].Inputs) == 0 || len(prompt) == 0 || !reflect.DeepEqual(c.slots[k].Inputs[0], prompt[0])
 //@   loop 1 invariant oldestSlot != nil ==> exists j int :: 0 <= j && j <= rangeindex && oldestSlot == &c.slots[j]
 //@   loop 1 invariant oldestSlot != nil ==> !oldestSlot.InUse
 
@@ -117,6 +132,7 @@ package llamarunner
 //@   ensures forall k int :: 0 <= k && k < len(c.slots) ==> c.slots[k].Id == old(c.slots[k].Id)
 //@   ensures result.2 == nil ==> len(result.1) >= 1 && len(result.0.Inputs) + len(result.1) == len(prompt)
 //@   ensures result.2 == nil ==> result.1 == prompt[len(result.0.Inputs):]
+//@   ensures result.2 == nil ==> forall k int :: 0 <= k && k < len(result.0.Inputs) ==> reflect.DeepEqual(result.0.Inputs[k], prompt[k])
 //@   ensures result.2 == nil && !cachePrompt ==> len(result.0.Inputs) == 0
 //@   ensures forall k int, q int :: 0 <= k && k < len(c.slots) ==> (llhas(c.lc.ghost_ver, k, q) <==> (0 <= q && q < len(c.slots[k].Inputs)))
 //@   ensures result.2 != nil ==> result.0 == nil && c.lc.ghost_ver == old(c.lc.ghost_ver)
